@@ -22,6 +22,9 @@
 //!                 sockets); every single-bit corruption (and sampled double flips) of a valid frame must have no
 //!                 effect at all (socket state, emitted frames) unless the corrupted packet still verifies
 //!                 under the independent implementation; every frame the stack emits is verified as well.
+//!   oracle-lowpan 6LoWPAN egress (Medium::Ieee802154, short/extended addresses; ICMPv6 from a socket and automatic
+//!                 echo replies, NHC-UDP, TCP; single-frame and fragmented): emitted frames reassembled and decompressed
+//!                 by an independent decoder, transport checksum verified with the independent RFC 1071
 //!   oracle-frag   fragmented IPv4 egress (UDP / ICMP / raw socket sends and an oversized echo request's reply at
 //!                 IP MTUs 68..576 on Medium::Ip and Ethernet): the IPv4 header checksum of every emitted
 //!                 fragment, and the transport checksum after independent reassembly
@@ -917,6 +920,7 @@ fn gen_cases(seed: u64, n: usize, tier: &str, out: &mut dyn Write, stats: &mut B
 }
 
 include!("h_cksum_inc/oracles.rs");
+include!("h_cksum_inc/lowpan.rs");
 
 fn main() {
     quiet_panics();
@@ -944,6 +948,7 @@ fn main() {
         "oracle" => oracle_emit(seed, n, &tier, &mut out),
         "oracle-iface" => oracle_iface(seed, n, &tier, &mut out),
         "oracle-frag" => oracle_frag(seed, n, &tier, &mut out),
+        "oracle-lowpan" => oracle_lowpan_egress(seed, n, &tier, &mut out),
         "oracle-replay" => oracle_replay(&mut out),
         x => panic!("unknown subcommand {}", x),
     }
